@@ -8,6 +8,15 @@ Streams
               table the writer looped over (x, y, labels from the wrapped _get_x_y, descriptors from the
               wrapped Data.get_axis_descriptions) is captured and sent to the model as exact doubles, so
               the comparison is on the emitted bytes
+              A quarter of the files are probabilistic (CDF columns p<t>, quantile columns q<level>, pit, or ensemble
+              members e0..e4) with the metrics bs, bss, ign0, quantilescore (-q), pithistdev, spread, pit; metrics that
+              honour it get -agg (median, min, max, count, sum, std, a numeric level)
+  out.table.perm  deterministic grid: -x threshold with the three thresholds of -r in all 6 orders x the four bin types of
+              the within family x csv/text x {a, ets, bs}: row i carries threshold i of the command line and the score of
+              the pair (threshold i, threshold i+1); the hit frequency a is recounted from the file rows
+  out.qdesc   which list the leading "Threshold" column of `-x threshold` shows: the REAL driver on a fixed probabilistic
+              file x 10 metrics x -r / -q / -b variants against Model/OutputDescs.lean (driver.py:548-572 stores the
+              quantile levels in pl.thresholds for quantile metrics); the oracle has its own metric table
   out.table.sub  the same on files with several initialisation times per day (date + hour columns: 00/06/12/18 UTC
               runs; unixtime column: any second of the day): a deterministic grid over the time-like axes, then
               random; the row label must be the slice's own init time / bucket and no two rows may share one
@@ -40,7 +49,7 @@ import numpy as np
 from common import xr, xvec, from_xr, from_xvec, num_close
 
 ID = "C12"
-TARGETS = ["Proofs.C12", "Proofs.C12Labels", "Proofs.Lemmas.Decimal", "Proofs.Lemmas.Table"]
+TARGETS = ["Proofs.C12", "Proofs.C12Labels", "Proofs.C12Descs", "Proofs.Lemmas.Decimal", "Proofs.Lemmas.Table"]
 GEN_PREFIXES = []
 THEOREMS = {
     "Proofs.C12": ["VerifModel.C12." + t for t in [
@@ -48,7 +57,11 @@ THEOREMS = {
         "C12_fmtG_sound", "C12_fmtG_special", "C12_fmtG_chars", "C12_descs", "C12_descs_other",
         "C12_acc", "C12_acc_full", "C12_threshold_avg", "C12_file_same"]],
     "Proofs.C12Labels": ["VerifModel.C12." + t for t in [
-        "C12_time_label", "C12_time_label_inj", "C12_time_labels_nodup", "C12_bucket_label", "C12_bucket_label_iff"]],
+        "C12_time_label", "C12_time_label_inj", "C12_time_labels_nodup", "C12_bucket_label", "C12_bucket_label_iff",
+        "C12_week_rows_distinct", "C12_week_label_printed", "C12_week_label_own", "C12_week_label_iff_partial",
+        "C12_week_label_iff_false", "C12_week_same_label_two_weeks", "C12_week_one_week_two_labels"]],
+    "Proofs.C12Descs": ["VerifModel.C12." + t for t in [
+        "C12_descs_quantile", "C12_descs_not_quantile", "C12_descs_given", "C12_threshold_column_rows"]],
     "Proofs.Lemmas.Decimal": ["VerifModel.Decimal." + t for t in [
         "ilog10_spec", "floorLog10_spec", "roundHalfEven_spec", "toDec_digits", "toDec_sound", "toDec_exp",
         "unsignedVal_fixed", "unsignedVal_sci", "fmtG_reads", "fmtG_sound"]],
@@ -61,6 +74,9 @@ TRUSTED_BASE = [
     "Model/OutputTable.lean: hand-written mirror of Output.csv / Output.text / the numeric tail of "
     "Standard._get_x_y, tied by streams out.writer (real writers, synthetic tables), out.table (real "
     "verif.driver.run, table captured by wrapping _get_x_y and Data.get_axis_descriptions), out.acc, out.tavg",
+    "Model/OutputDescs.lean: hand-written evaluation of the source of pl.thresholds (-r, stored thresholds, -q, stored "
+    "quantiles; the SOURCE logic is Model/Dispatch.lean, shared with C19, driven by the class table regenerated from "
+    "metric.py / output.py) and of the number of intervals per bin type, tied by stream out.qdesc (real driver)",
     "Model/TimeLabel.lean: hand-written mirror of the time-like branch of Data.get_axis_descriptions (UTC "
     "broken-down time of the axis value written with the axis format; %Y for years 1000-9999, %U = (yday + 7 - "
     "wday) / 7), tied by stream out.tlabel (real method, 31 days x 12 seconds of the day x 5 axes on every run); "
@@ -71,8 +87,10 @@ TRUSTED_BASE = [
     "fractional seconds, IEEE rounding of np.cumsum and of the "
     "threshold mean (rtol 1e-9), negative zero (\"-0\" is normalised to \"0\" in the comparison)",
     "the oracle's independent recomputation uses verif.data.Data and verif.metric.<M>.compute on a fresh "
-    "dataset (C01-C11 are responsible for those); for mae/bias it additionally recomputes every slice in plain "
-    "Python from the generated rows",
+    "dataset, with the aggregator of -agg set on the metric and the quantile levels / stored thresholds chosen by the "
+    "oracle's own metric table (C01-C11, C08, C15 are responsible for those functions); for mae/bias (any -agg, "
+    "aggregators written out by hand) and for the hit frequency a on the threshold axis it additionally recomputes "
+    "every slice in plain Python from the generated rows",
 ]
 ASSUMPTIONS = [
     "round-trip theorems (decidable predicates CsvOk / TextOk, non-vacuity examples in Proofs/C12.lean): csv — header "
@@ -86,12 +104,28 @@ ASSUMPTIONS = [
     "of the day in out.table.sub), obs identical across files for the same case, values exactly representable in "
     "float32",
     "time-axis label theorems: every whole second from 1900-01-01T00:00:00Z to 2100-12-31T23:59:59Z (the range of "
-    "the C11 calendar facts); no theorem for the week label (%Y/%U), which is tied by out.tlabel only",
+    "the C11 calendar facts)",
+    "week label: the full statement 'equal %Y/%U labels <=> same week bucket' is FALSE (C12_week_label_iff_false: "
+    "buckets start on Monday, %U counts weeks from Sunday; a Sunday carries the number of the week that starts the "
+    "next day); proved instead: the labels a table PRINTS (the label of the bucket's Monday) are pairwise distinct for "
+    "distinct buckets and one bucket has one label (C12_week_rows_distinct), and an instant's own label equals the "
+    "printed one iff it is not a Sunday and in the year of its Monday (C12_week_label_own, _iff_partial)",
+    "Threshold column theorems: for every metric description, -r / -q / stored lists with -q non-empty when given; the "
+    "20 default thresholds of deterministic metrics (data dependent) and the refusal of quantilescore / spread with "
+    "-b below* (raised inside the metric) are outside Model/OutputDescs.lean",
+    "probabilistic files: every file of a scenario has the same thresholds / quantile levels apart from one extra "
+    "column in one file; CDF values k/8 non-decreasing in the threshold, quantile values non-decreasing in the level",
 ]
 RULE = ("out.table (first, so that a failing input is a command line): 1-3 generated input files (1-4 dates x 1-4 lead "
         "times x 1-4 stations, rows shuffled, rows dropped, NaN / -999, extra dates / lead times / stations in some "
         "files), metric round-robin over 14 deterministic + 12 contingency + obsfcst, -x round-robin over 16 documented "
-        "axes + default + threshold + obs/fcst, -r/-b (8 bin types), -leg, -acc, -f; fmtg: random bit patterns, uniform "
+        "axes + default + threshold + obs/fcst, -r/-b (8 bin types), -leg, -acc, -f, -agg (12 aggregators incl. numeric "
+        "levels) on the 7 metrics that honour it; every fourth scenario is probabilistic (p<t> / q<level> / pit columns "
+        "or 5 ensemble members; one file with an extra threshold and level) with bs, bss, ign0 (-r from the stored "
+        "thresholds or absent, -b), quantilescore (-q or absent), spread (-q pair), pithistdev, pit (-agg), half of them "
+        "on -x threshold; out.table.perm: 6 orders of -r 1,3,5 x 4 within-type bins x csv/text x {a, ets, bs}; "
+        "out.qdesc: 10 metrics x -r {absent, 0,5, 5,0,2.5} x -q {absent, 0.1,0.9, 0.9,0.1, 0.5, 0.1,0.5,0.9} x -b "
+        "{absent, within, below=} on a fixed file with stored thresholds 0,2.5,5 and levels 0.1,0.5,0.9; fmtg: random bit patterns, uniform "
         "values, m*10^e for e in -330..309 with mantissas at and next to the rounding tie of digit 6/4, half-integers, "
         "precisions 0,1,2,3,4,6,10,17; out.writer: the real Output.csv/.text on random tables (0-5 rows, 1-4 descriptor "
         "columns of strings/numbers/None, 1-4 score columns from a pool of special doubles, ASCII/Unicode/blank-"
@@ -118,7 +152,12 @@ LEVEL_TEXT = ("Lean theorems over the model of the writers: parse(print(table)) 
               "initialisation time is YYYY-MM-DD HH:MM:SS of its textbook civil date and second of the day, two init "
               "times with the same label are the same instant (so the rows of a table carry pairwise distinct labels), "
               "and day / month / year labels are equal exactly for instants of the same bucket (every whole second "
-              "1900-2100).  The model is tied to "
+              "1900-2100); distinct week buckets print distinct labels and one bucket one label (the instant-level "
+              "equivalence is false for %Y/%U on Monday-based buckets and its negation is proved on a witness); on "
+              "-x threshold the leading column is headed Threshold, has one row per interval (all n values, or the n-1 "
+              "lower edges for the within family) and shows, for a metric that requires quantiles, the quantile levels "
+              "(-q or those stored in the files), for the others the -r values / stored thresholds, -q having no "
+              "influence.  The model is tied to "
               "/repo on every run by byte-exact correspondence with the real verif.driver.run output on generated "
               "datasets (table captured from the running code as exact doubles) and with the real writers on "
               "synthetic tables.")
@@ -131,6 +170,18 @@ DET = ["mae", "bias", "rmse", "corr", "cmae", "stderror", "obs", "fcst", "ef", "
        "fcststddev", "nsec"]
 CONT = ["ets", "hit", "far", "pc", "threat", "biasfreq", "kss", "hss", "a", "b", "n", "fcstrate"]
 BINS = ["below", "below=", "above", "above=", "within", "=within", "within=", "=within="]
+WITHIN = ["within", "=within", "within=", "=within="]
+# probabilistic input files (p<threshold> = CDF at the threshold, q<level> = forecast quantile, pit; or ensemble members)
+PROB = ["bs", "bss", "ign0", "quantilescore", "pithistdev", "spread", "pit"]
+PTHR = [0, 1, 2.5, 5, 7.5]
+QLEV = [0.1, 0.25, 0.5, 0.75, 0.9]
+# from the metric descriptions of the tool ("Use -q to set which quantiles to use" / "based on threshold"); the oracle's
+# own table, never read from the code: (smallest, largest number of quantiles)
+QUANT_METRICS = {"quantilescore": (None, None), "spread": (2, 2), "quantile": (None, None), "quantilecoverage": (1, 2)}
+THR_METRICS = {"bs", "bss", "ign0"}
+# metrics whose help says they aggregate with -agg (supports_aggregator)
+AGG_METRICS = ["mae", "bias", "rmse", "cmae", "obs", "fcst", "pit"]
+AGGS = ["median", "min", "max", "count", "sum", "std", "0.9", "0.25", "mean", "0.5", "1", "0"]
 DATES = [20120101, 20120102, 20120103, 20120108, 20120131, 20120201, 20120229, 20120301, 20121231,
          20130101, 20130615, 20111230]
 LEADS = [0, 1, 3, 6, 12, 18, 24, 30, 36, 48, 72]
@@ -267,7 +318,8 @@ def _write_files(scen, d):
     for fl in scen["files"]:
         p = os.path.join(d, fl["n"])
         with open(p, "w") as f:
-            f.write(TIMECOLS[scen.get("t")] + " leadtime location lat lon altitude obs fcst\n")
+            f.write(TIMECOLS[scen.get("t")] + " leadtime location lat lon altitude obs fcst" +
+                    "".join(" " + c for c in fl.get("c", [])) + "\n")
             for r in fl["r"]:
                 f.write(r.replace("~", " ") + "\n")
         paths.append(p)
@@ -591,7 +643,178 @@ def _gen_args(rng, k, nf, axes):
         args += ["-leg", ",".join(rng.choice(pool) for _ in range(nf))]
     if rng.random() < 0.25:
         args += ["-acc"]
+    if metric in AGG_METRICS and rng.random() < 0.45:
+        args += ["-agg", AGGS[(k // 5) % len(AGGS)]]
     return args
+
+
+# ---- probabilistic input files
+def _row(date, lead, loc, obs, fc):
+    """one data row of a file with a date column (initialisation at midnight)"""
+    return "%d~%d~%d~%s~%s~%s~%s~%s" % (date, lead, loc[0], _num_tok(loc[1]), _num_tok(loc[2]), _num_tok(loc[3]), obs, fc)
+
+
+def _gen_prob_scenario(rng, k):
+    """1-3 files with the same cases and, besides obs and fcst, either CDF columns p<t>, quantile columns q<level> and
+    pit, or ensemble members e0..e4 and pit; one file may carry an extra threshold / quantile column (the thresholds
+    and quantiles of the dataset are those common to all files)"""
+    nf = rng.choice([1, 2, 2, 3])
+    dates = sorted(rng.sample(DATES, rng.randint(1, 3)))
+    leads = sorted(rng.sample(LEADS, rng.randint(1, 3)))
+    locs = sorted(rng.sample(LOCS, rng.randint(1, 3)))
+    ens = rng.random() < 0.25
+    thr = sorted(rng.sample(PTHR, rng.randint(2, 4)))
+    lev = sorted(rng.sample(QLEV, rng.randint(2, 4)))
+    obs = {}
+    for key in itertools.product(dates, leads, [l[0] for l in LOCS]):
+        obs[key] = _fmtval(rng) if rng.random() > 0.06 else rng.choice(["nan", "-999"])
+    names = rng.sample(["a.txt", "b.txt", "raw.txt", "kf.txt", "m1", "x.y.txt", "Zed.txt"], nf)
+    extra = rng.randrange(nf) if (nf > 1 and not ens and rng.random() < 0.4) else None
+    files = []
+    for f in range(nf):
+        if ens:
+            cols = ["e%d" % i for i in range(5)] + ["pit"]
+        else:
+            t2 = thr + ([10] if f == extra else [])
+            l2 = lev + ([0.99] if f == extra else [])
+            cols = ["p%s" % _num_tok(t) for t in t2] + ["q%s" % repr(l) for l in l2] + ["pit"]
+        rows = []
+        for (d, l, s_) in itertools.product(dates, leads, locs):
+            if rng.random() < 0.04 and len(rows) > 0:
+                continue
+            fc = _fmtval(rng) if rng.random() > 0.05 else "nan"
+            if ens:
+                vals = [rng.randint(-4, 20) / 2.0 for _ in range(5)]
+            else:
+                vals = sorted(rng.randint(0, 8) / 8.0 for _ in t2) + sorted(rng.randint(-4, 20) / 2.0 for _ in l2)
+            vals.append(rng.randint(0, 16) / 16.0)
+            toks = [_num_tok(v) if rng.random() > 0.03 else "nan" for v in vals]
+            rows.append(_row(d, l, s_, obs[(d, l, s_[0])], fc) + "~" + "~".join(toks))
+        rng.shuffle(rows)
+        files.append({"n": names[f], "r": rows, "c": cols})
+    return {"files": files, "args": _gen_prob_args(rng, k, nf, thr, lev, ens), "k": "ens" if ens else "cdf"}
+
+
+def _gen_prob_args(rng, k, nf, thr, lev, ens):
+    kind = ["csv", "text"][k % 2]
+    metric = PROB[(k // 2) % len(PROB)]
+    args = ["-m", metric, "-type", kind]
+    axis = AXES[(k // 3) % len(AXES)] if rng.random() < 0.9 else None
+    if metric in THR_METRICS:
+        if rng.random() < 0.5:
+            axis = "threshold" if rng.random() < 0.8 else None            # the default axis of these metrics
+        r = None
+        if ens:
+            r = sorted(rng.sample([0, 0.5, 1, 2, 2.5, 3, 5], rng.randint(1, 3)))
+        elif rng.random() < 0.7:
+            r = sorted(rng.sample(thr, rng.randint(1, len(thr))))
+        n = len(r) if r is not None else len(thr)
+        b = rng.choice(BINS + [None, None])
+        if b is not None and "within" in b and n < 2:
+            b = None
+        if b is not None:
+            args += ["-b", b]
+        if r is not None:
+            args += ["-r", ",".join("%g" % t for t in r)]
+    elif metric == "quantilescore":
+        if rng.random() < 0.5:
+            axis = "threshold"
+        if ens:
+            q = sorted(rng.sample([0.1, 0.2, 0.5, 0.75, 0.9], rng.randint(1, 3)))
+        else:
+            q = sorted(rng.sample(lev, rng.randint(1, len(lev)))) if rng.random() < 0.7 else None
+        if q is not None:
+            args += ["-q", ",".join(repr(x) for x in q)]
+    elif metric == "spread":
+        if rng.random() < 0.4:
+            axis = "threshold"
+        if ens:
+            q = sorted(rng.sample([0.1, 0.2, 0.5, 0.75, 0.9], 2))
+        else:
+            q = sorted(rng.sample(lev, 2)) if (len(lev) != 2 or rng.random() < 0.5) else None
+        if q is not None:
+            args += ["-q", ",".join(repr(x) for x in q)]
+    if axis is not None:
+        args += ["-x", axis]
+    if rng.random() < 0.3:
+        args += ["-leg", ",".join(rng.choice(["a", "b", "new_model", "kf", "m1", "é"]) for _ in range(nf))]
+    if rng.random() < 0.2:
+        args += ["-acc"]
+    if metric in AGG_METRICS and rng.random() < 0.6:
+        args += ["-agg", AGGS[(k // 5) % len(AGGS)]]
+    return args
+
+
+def _det_permuted():
+    """-x threshold with the thresholds of -r in every order (3 values: 6 permutations) and each bin type of the
+    within family: row i must carry threshold i of the command line and the score of the interval
+    (threshold i, threshold i+1) — empty when the pair is descending.  Metric a (hit frequency, which the oracle
+    recounts from the file rows), ets, and bs on a file with CDF columns."""
+    det_rows, prob_rows = [], []
+    for i, d in enumerate((20120101, 20120102, 20120103)):
+        for j, l in enumerate((0, 6)):
+            for q, s_ in enumerate(LOCS[:2]):
+                ob = (i * 5 + j * 3 + q * 4) % 7
+                fcs = [(i * 3 + j * 5 + q * 2 + f * 3) % 7 for f in range(2)]
+                det_rows.append([_row(d, l, s_, _num_tok(ob), _num_tok(fc)) for fc in fcs])
+                cdf = sorted(((i + 2 * j + 3 * q + t) % 9) / 8.0 for t in range(3))
+                prob_rows.append([r + "~" + "~".join(_num_tok(c) for c in cdf) for r in det_rows[-1]])
+    out = []
+    n = 0
+    for perm in itertools.permutations([1, 3, 5]):
+        for b in WITHIN:
+            for kind in ("csv", "text"):
+                for metric in ("a", "ets", "bs"):
+                    rows = prob_rows if metric == "bs" else det_rows
+                    files = [{"n": ["a.txt", "b.txt"][f], "r": [r[f] for r in rows]} for f in range(2)]
+                    if metric == "bs":
+                        for fl in files:
+                            fl["c"] = ["p1", "p3", "p5"]
+                    args = ["-m", metric, "-type", kind, "-x", "threshold", "-b", b, "-r", ",".join("%d" % t for t in perm)]
+                    n += 1
+                    out.append(({"files": files, "args": args}, n % 3 == 0))
+    return out
+
+
+# ---- the Threshold column of quantile / threshold metrics (stream out.qdesc)
+QD_THR = [0, 2.5, 5]
+QD_LEV = [0.1, 0.5, 0.9]
+QD_METRICS = ["bs", "bss", "ign0", "quantilescore", "spread", "quantile", "quantilecoverage", "pithistdev", "mae", "ets"]
+
+
+def _qdesc_scen():
+    cols = ["p%s" % _num_tok(t) for t in QD_THR] + ["q%s" % repr(l) for l in QD_LEV] + ["pit"]
+    rows = []
+    for i, d in enumerate((20120101, 20120102)):
+        for j, l in enumerate((0, 6, 12)):
+            ob, fc = (i * 3 + j * 2) % 6, (i * 2 + j * 3 + 1) % 6
+            cdf = sorted(((i + 2 * j + 3 * t) % 9) / 8.0 for t in range(3))
+            qs = sorted((i + j + 2 * t) % 7 for t in range(3))
+            rows.append("%d~%d~3~50~10~12~%d~%d~" % (d, l, ob, fc) + "~".join(_num_tok(v) for v in cdf + qs + [(i + j) / 8.0]))
+    return {"files": [{"n": "qd.txt", "r": rows, "c": cols}]}
+
+
+def _gen_qdesc():
+    rs = ["-", "0,5", "5,0,2.5"]
+    qs = ["-", "0.1,0.9", "0.9,0.1", "0.5", "0.1,0.5,0.9"]
+    bins = ["-", "within", "below="]
+    n = 0
+    for m in QD_METRICS:
+        quant = m in QUANT_METRICS
+        for r in (rs[:2] if quant else rs):
+            for q in (qs if quant else qs[:2]):
+                for b in bins:
+                    if m == "ets" and r == "-":
+                        continue                      # 20 thresholds between the smallest and largest value: C13's subject
+                    if m in ("mae", "pithistdev", "ets") and b == "below=":
+                        continue
+                    if m in ("quantilescore", "spread") and b == "below=":
+                        continue                      # these two read the LOWER edge as the level: "quantile metrics need
+                                                      # '-b above' or a 'within' type" (error message of the tool)
+                    n += 1
+                    yield "out.qdesc", "qdesc %s %s %s %s %s %s %s" % (
+                        ["csv", "text"][n % 2], m, b, r, q, ",".join(xr(Fraction(repr(float(t)))) for t in QD_THR),
+                        ",".join(xr(Fraction(repr(l))) for l in QD_LEV))
 
 
 # ---- initialisation times that are not at midnight (hour column / unixtime column)
@@ -714,9 +937,16 @@ def gen_ops(tier, rng):
     quick = tier == "quick"
     # ---- the command line on generated datasets
     for k in range(1200 if quick else 8000):
-        scen = _gen_scenario(rng, k)
+        scen = _gen_prob_scenario(rng, k // 4) if k % 4 == 3 else _gen_scenario(rng, k)
         for so in _scen_ops(scen, 1 if rng.random() < 0.3 else 0):
             yield so
+    # ---- -x threshold with permuted thresholds and the within family of bin types (deterministic grid)
+    for scen, with_f in _det_permuted():
+        for so in _scen_ops(scen, 1 if with_f else 0, "out.table.perm"):
+            yield so
+    # ---- which list the Threshold column shows (quantile levels for quantile metrics)
+    for so in _gen_qdesc():
+        yield so
     # ---- the same with several initialisation times per day: deterministic grid, then random
     for scen, with_f in _det_subdaily():
         for so in _scen_ops(scen, with_f, "out.table.sub"):
@@ -759,7 +989,7 @@ def gen_ops(tier, rng):
 
 def search_ops(rng):
     for k in range(1500):
-        scen = _gen_scenario(rng, k)
+        scen = _gen_prob_scenario(rng, k // 3) if k % 3 == 2 else _gen_scenario(rng, k)
         for so in _scen_ops(scen, 1 if rng.random() < 0.3 else 0):
             yield so
     for k in range(600):
@@ -775,6 +1005,17 @@ def search_ops(rng):
         yield "out.acc", "acc " + show_matrix(_gen_matrix(rng))
         m = _gen_matrix(rng)
         yield "out.tavg", "tavg %d %s" % (len(m[0]), show_matrix(m))
+
+
+def lean_op(op):
+    """qdesc: the -r / -q values are decimal strings on the command line and exact rationals for the model"""
+    a = op.split(" ")
+    if a[0] == "qdesc":
+        for i in (4, 5):
+            if a[i] != "-":
+                a[i] = ",".join(xr(Fraction(x)) for x in a[i].split(","))
+        return " ".join(a)
+    return op
 
 
 # ------------------------------------------------------------------ impl
@@ -839,6 +1080,21 @@ def impl(op):
             (pl.csv if a[1] == "csv" else pl.text)(D())
         tab = _parse_emitted(a[1], buf.getvalue())
         return "%s:%s" % (tab[0][0], {7.0: "T", 9.0: "A"}.get(float(tab[1][0]), "?"))
+    if a[0] == "qdesc":
+        scen = dict(_qdesc_scen())
+        scen["args"] = ["-m", a[2], "-x", "threshold", "-type", a[1]] + ([] if a[3] == "-" else ["-b", a[3]]) + \
+            ([] if a[4] == "-" else ["-r", a[4]]) + ([] if a[5] == "-" else ["-q", a[5]])
+        res = _run(scen, False)
+        if res["status"] == "exit":
+            return "ERR"
+        if res["status"] != "ok":
+            return "EXC:" + res["status"][4:]
+        tab = _parse_emitted(a[1], res["out"])
+        if tab is None or not tab:
+            return "BAD:" + esc(res["out"])[:200]
+        if tab[0][0] != "Threshold":
+            return "NONE"
+        return "Threshold:" + (",".join(xr(Fraction(r[0])) for r in tab[1:]) if len(tab) > 1 else "-")
     if a[0] == "tlabel":
         import verif.axis
         import verif.data
@@ -987,16 +1243,78 @@ def _subdaily(scen):
     return any(k[0] % 86400 != 0 for tab in tabs for k in tab)
 
 
+def _aggregate(name, vals):
+    """the documented aggregators on a non-empty list of numbers, written out by hand"""
+    n = len(vals)
+    if name is None or name == "mean":
+        return float(np.mean(vals))
+    srt = sorted(vals)
+    if name == "median":
+        return srt[n // 2] if n % 2 else (srt[n // 2 - 1] + srt[n // 2]) / 2.0
+    if name == "min":
+        return srt[0]
+    if name == "max":
+        return srt[-1]
+    if name == "count":
+        return float(n)
+    if name == "sum":
+        return math.fsum(vals)
+    if name == "std":
+        mu = math.fsum(vals) / n
+        return math.sqrt(math.fsum((v - mu) ** 2 for v in vals) / n)
+    q = float(name)                                   # a number: that quantile, linear interpolation between order statistics
+    pos = (n - 1) * q
+    lo = int(math.floor(pos))
+    hi = min(lo + 1, n - 1)
+    return srt[lo] + (srt[hi] - srt[lo]) * (pos - lo)
+
+
+def _in_interval(b, lo, hi, x):
+    """the documented bin types: below x < t, below= x <= t, above x > t, above= x >= t, within lo < x < hi, and the
+    '=' on the side that is closed"""
+    if b == "below":
+        return x < hi
+    if b == "below=":
+        return x <= hi
+    if b == "above":
+        return x > lo
+    if b == "above=":
+        return x >= lo
+    left = (lo <= x) if b in ("=within", "=within=") else (lo < x)
+    right = (x <= hi) if b in ("within=", "=within=") else (x < hi)
+    return left and right
+
+
 def _pure(scen, metric, axis):
-    """slices (descriptor expectation, per-file score) for mae / bias on the basic axes; None if not covered"""
+    """slices (descriptor expectation, per-file score) for mae / bias (with any -agg) on the basic axes, and for the
+    hit frequency a (hits / cases) on the threshold axis; None if not covered"""
+    args = scen["args"]
+    agg = _arg(args, "-agg")
+    if metric == "a" and axis == "threshold" and "-r" in args:
+        tabs, times, leads, locs, meta = _expected_from_files(scen)
+        thr = [float(t) for t in _arg(args, "-r").split(",")]
+        b = _arg(args, "-b", "above")
+        pairs = [(thr[i], thr[i + 1]) for i in range(len(thr) - 1)] if b in WITHIN else [(t, t) for t in thr]
+        cases = []
+        for ut, l, s in itertools.product(times, leads, locs):
+            vals = [t.get((ut, l, s), (float("nan"), float("nan"))) for t in tabs]
+            if all(not math.isnan(o) and not math.isnan(f) for o, f in vals):
+                cases.append(vals)
+        out = []
+        for i, (lo, hi) in enumerate(pairs):
+            sc = [sum(1 for c in cases if _in_interval(b, lo, hi, c[f][0]) and _in_interval(b, lo, hi, c[f][1])) /
+                  float(len(cases)) if cases else float("nan") for f in range(len(tabs))]
+            out.append(([thr[i]], sc))
+        return out
     if metric not in ("mae", "bias") or axis not in ("leadtime", "location", "lat", "lon", "elev", "time", "day",
-                                                      "month", "year", "timeofday", "no"):
+                                                      "week", "month", "year", "timeofday", "no"):
         return None
     tabs, times, leads, locs, meta = _expected_from_files(scen)
 
     def keyof(ut, l, s):
         d = _civil(ut)[0]
         return {"leadtime": l, "time": ut, "day": ut // 86400, "month": (d.year, d.month), "year": d.year,
+                "week": ut // 86400 - d.weekday(),                       # the day number of the Monday of that week
                 "timeofday": Fraction(ut % 86400, 3600), "no": 0}.get(axis, s)
     groups, first = {}, {}
     for ut, l, s in itertools.product(times, leads, locs):
@@ -1013,6 +1331,8 @@ def _pure(scen, metric, axis):
             desc = [float(k)] + list(meta[k])
         elif axis in ("time", "day", "month", "year"):
             desc = [_time_label(axis, first[k])]       # the slice's own init time / day / month / year
+        elif axis == "week":
+            desc = [_time_label("week", k * 86400)]    # the week is named after its first day (the Monday), %Y/%U of it
         elif axis == "timeofday":
             desc = [float(k)]
         else:
@@ -1023,9 +1343,9 @@ def _pure(scen, metric, axis):
             if not v:
                 sc.append(float("nan"))
             elif metric == "mae":
-                sc.append(float(np.mean([abs(o - fc) for o, fc in v])))
+                sc.append(float(_aggregate(agg, [abs(o - fc) for o, fc in v])))
             else:
-                sc.append(float(np.mean([fc - o for o, fc in v])))
+                sc.append(float(_aggregate(agg, [fc - o for o, fc in v])))
         out.append((desc, sc))
     return out
 
@@ -1080,6 +1400,15 @@ def _recompute(scen):
                     tlike = False
                 else:
                     m = verif.metric.get(metric)
+                    if _arg(args, "-agg") is not None:
+                        import verif.aggregator
+                        m.aggregator = verif.aggregator.get(_arg(args, "-agg"))
+                    if metric in QUANT_METRICS:          # computed per quantile level: -q, else the stored levels
+                        qv = _arg(args, "-q")
+                        thr = np.array([float(t) for t in qv.split(",")]) if qv is not None else \
+                            np.array(sorted(set.intersection(*[set(float(x) for x in i.quantiles) for i in inputs])))
+                    elif metric in THR_METRICS and thr is None:   # per threshold: -r, else the stored thresholds
+                        thr = np.array(sorted(set.intersection(*[set(float(x) for x in i.thresholds) for i in inputs])))
                     axis = verif.axis.get(_arg(args, "-x")) if "-x" in args else \
                         (m.default_axis if m.default_axis is not None else verif.axis.Leadtime())
                     bt = _arg(args, "-b") or m.default_bin_type or "above"
@@ -1148,7 +1477,7 @@ def _judge_table(a, impl_out):
     args = scen["args"]
     axis_arg = _arg(args, "-x", "default")
     sig = {"type": kind, "axis": axis_arg, "metric": _arg(args, "-m"), "acc": "-acc" in args, "f": with_f,
-           "subdaily": _subdaily(scen),
+           "subdaily": _subdaily(scen), "agg": "-agg" in args, "input": scen.get("k", "det"),
            "xgroup": "field" if axis_arg in ("obs", "fcst") else ("threshold" if axis_arg == "threshold" else "dim")}
     cl = cmdline(scen, with_f)
     if impl_out.startswith("RUN:") or impl_out.startswith("EXC:") or impl_out.startswith("EXIT:"):
@@ -1217,7 +1546,7 @@ def _judge_table(a, impl_out):
                         "they are different slices" % (cl, seen[lead], i, list(lead)))
             seen[lead] = i
     # second, library-free path for mae / bias
-    pure = _pure(scen, _arg(args, "-m"), aname) if "-x" in args or True else None
+    pure = _pure(scen, _arg(args, "-m"), aname)
     if pure is not None:
         if len(pure) != len(body):
             return (dict(sig, kind="rows"), "%s: %d data rows, the files have %d common slices" % (cl, len(body), len(pure)))
@@ -1283,6 +1612,54 @@ def _judge_writer(a, impl_out):
     return None
 
 
+def _qdesc_expected(metric, b, r, q, stored_t, stored_q):
+    """the documented leading column of `-m metric -x threshold`: quantile metrics are computed per quantile LEVEL
+    (-q, else the levels stored in the files), threshold metrics per threshold (-r, else those stored in the files);
+    one row per interval — every value for below/above, every consecutive pair for the within family (row i = lower
+    edge i).  -> list of Fractions, "ERR" (the tool must stop with its message) or None (no threshold column)"""
+    if metric in QUANT_METRICS:
+        vals = q if q is not None else stored_q
+        lo, hi = QUANT_METRICS[metric]
+        if (lo is not None and len(vals) < lo) or (hi is not None and len(vals) > hi):
+            return "ERR"
+    elif metric in THR_METRICS:
+        vals = r if r is not None else stored_t
+        if not vals:
+            return "ERR"
+    elif metric in CONT and r is not None:
+        vals = r
+    else:
+        return None
+    bt = b if b is not None else ("within" if metric == "spread" else "above")
+    return vals[:-1] if bt in WITHIN else vals
+
+
+def _judge_qdesc(a, impl_out):
+    fr = lambda tok: None if tok == "-" else [Fraction(x) for x in tok.split(",")]
+    kind, metric, b = a[1], a[2], (None if a[3] == "-" else a[3])
+    r, q = fr(a[4]), fr(a[5])
+    st, sq = fr(a[6]) or [], fr(a[7]) or []
+    cl = "verif qd.txt -m %s -x threshold -type %s%s%s%s" % (metric, kind, "" if b is None else " -b " + b,
+                                                          "" if r is None else " -r " + a[4], "" if q is None else " -q " + a[5])
+    sig = {"stream": "qdesc", "type": kind, "metric": metric, "axis": "threshold", "xgroup": "threshold",
+           "quantile": metric in QUANT_METRICS}
+    if impl_out.startswith("EXC:") or impl_out.startswith("BAD:"):
+        return (dict(sig, kind="crash", how=impl_out[:40]), "%s ended in %s instead of a table or the error message" % (cl, impl_out))
+    want = _qdesc_expected(metric, b, r, q, st, sq)
+    if want == "ERR":
+        if impl_out != "ERR":
+            return (dict(sig, kind="count"), "%s: the number of quantiles / thresholds is outside what the metric documents, "
+                    "but the tool printed %s" % (cl, impl_out))
+        return None
+    if impl_out == "ERR":
+        return (dict(sig, kind="crash", how="exit"), "%s stopped with an error" % cl)
+    exp = "NONE" if want is None else "Threshold:" + (",".join(xr(v) for v in want) if want else "-")
+    if impl_out != exp:
+        return (dict(sig, kind="descriptor"), "%s: the leading column is %s, expected %s (%s)" % (
+            cl, impl_out, exp, "the quantile levels" if metric in QUANT_METRICS else "the thresholds"))
+    return None
+
+
 def judge(op, impl_out, spec_out):
     a = op.split(" ")
     if a[0] == "fmtg":
@@ -1305,6 +1682,8 @@ def judge(op, impl_out, spec_out):
                     "column %s: the leading field must be the %s" % (a[1], a[2], impl_out,
                     "threshold" if want == "T" else "axis value"))
         return None
+    if a[0] == "qdesc":
+        return _judge_qdesc(a, impl_out)
     if a[0] == "tlabel":
         t = int(a[2])
         want = "%s:%s" % (a[1].capitalize(), _time_label(a[1], t).replace(" ", "_"))
@@ -1372,7 +1751,8 @@ def nontrivial(op, out):
 
 
 def extra_evidence(rows):
-    axes, metrics, kinds, opts = {}, {}, {}, {"-f": 0, "-leg": 0, "-acc": 0, "-r": 0, "-b": 0}
+    axes, metrics, kinds, opts = {}, {}, {}, {"-f": 0, "-leg": 0, "-acc": 0, "-r": 0, "-b": 0, "-q": 0, "-agg": 0}
+    inputs = {}
     crashed = sub = 0
     for r in rows:
         if not r["stream"].startswith("out.table"):
@@ -1383,10 +1763,11 @@ def extra_evidence(rows):
         axes[_arg(args, "-x", "default")] = axes.get(_arg(args, "-x", "default"), 0) + 1
         metrics[_arg(args, "-m")] = metrics.get(_arg(args, "-m"), 0) + 1
         kinds[a[0]] = kinds.get(a[0], 0) + 1
-        for o in ("-leg", "-acc", "-r", "-b"):
+        for o in ("-leg", "-acc", "-r", "-b", "-q", "-agg"):
             opts[o] += 1 if o in args else 0
+        inputs[scen.get("k", "det")] = inputs.get(scen.get("k", "det"), 0) + 1
         opts["-f"] += 1 if a[1] == "1" else 0
         crashed += 1 if a[2] == "?" else 0
         sub += 1 if scen.get("t") else 0
-    return {"table_subdaily": sub, "table_axes": axes, "table_metrics": metrics, "table_types": kinds, "table_options": opts,
+    return {"table_subdaily": sub, "table_inputs": inputs, "table_axes": axes, "table_metrics": metrics, "table_types": kinds, "table_options": opts,
             "table_runs_without_table": crashed}
